@@ -15,10 +15,15 @@ EXPLANATION = (
     "scratch-and-commit: matching into `Cow::Borrowed(env.as_ref())` and assigning `*env` only on success. Unknown combinators are "
     "reported as unclassified. R2 candidate loops: stop rules are evaluated with a fresh environment (Node::matches). R3 guarded "
     "insert: the binding maps are written only by insert/insert_multi/add_label/… and there only after match_variable / "
-    "match_multi_var approved the binding. R4 `any` restarts its scratch environment for every alternative; `all` shares one."
+    "match_multi_var approved the binding. R5 the approval is does_node_match_exactly(existing binding, candidate), and that predicate "
+    "recurses over the unfiltered children() of both nodes in lock-step, rejecting on a kind or arity mismatch. R6 the same failure "
+    "atomicity inside the pattern engine (match_tree::match_node), whose functions thread `&mut impl Aggregator`: once a call that was "
+    "handed the caller's aggregator reports failure (None / NoMatch) no path reaches another call handed that aggregator — a loop that "
+    "retries the next candidate (the `$$$` scan) must attempt on a scratch copy; the Skip* outcomes that do loop are shown to be produced "
+    "before any aggregator call. R4 `any` restarts its scratch environment for every alternative; `all` shares one."
 )
 NOT_DECIDED = (
-    "Structural equality itself (does_node_match_exactly is value level); that the bindings reported equal the source text (C07); "
+    "Structural equality as a value (R5 decides only its shape: which children/kinds are compared and rejected on); the pre-existing named-only comparison of `$$$A` sequences; that the bindings reported equal the source text (C07); "
     "constraint ordering (C13)."
 )
 TRUSTED = ["explicit model of Option/Iterator combinators listed in the checker (preserving / dropping); anything else is reported as unclassified",
@@ -244,6 +249,8 @@ def run(ctx):
     ctx.rule("R1", "failure atomicity: after the caller's environment was exposed to a successful callee (or written directly) the function cannot return None, drop the success, or discard the candidate")
     ctx.rule("R2", "stop rules in candidate loops are evaluated with a fresh environment")
     ctx.rule("R3", "binding maps are written only by the guarded insert functions, after match_variable/match_multi_var approved")
+    ctx.rule("R5", "the equality predicate behind a repeated meta-variable looks at every child of both nodes (no element-dropping adaptor, kinds and arity compared) and decides match_variable")
+    ctx.rule("R6", "pattern engine: after an attempt on the caller's aggregator failed, the aggregator is not used again (retries run on a scratch copy)")
     ctx.rule("R4", "`any` re-initialises its scratch environment for each alternative; `all` shares one scratch and commits once")
     fns = family_env_functions(prog)
     ctx.floor("R1", "functions receiving the caller's environment", len(fns), 25)
@@ -297,6 +304,8 @@ def run(ctx):
     r2(ctx)
     r3(ctx)
     r4(ctx)
+    r5(ctx)
+    r6(ctx)
 
 
 def r2(ctx):
@@ -385,3 +394,195 @@ def r4(ctx):
         resets = sum(len(deref_assigns(g, "Borrowed")) for g in prog.closures_of(allf))
         commits = deref_assigns(allf, "Owned")
         ctx.ob("R4", "All shares one scratch and commits once", resets == 0 and len(commits) == 1, "scratch created once outside the per-pattern closure (%d resets inside), %d commit(s) of Cow::Owned to *env" % (resets, len(commits)), where=allf.loc())
+
+
+from ..query import DROPPING_ITER  # noqa: E402
+
+
+def _pair_compare(prog, f, a, b):
+    """a, b: Calls whose results are compared with ==/!=; returns (found, rejecting): a switch on the comparison exists and its
+    'unequal' arm assigns `_0 = false` without any other assignment of _0"""
+    for bi in sorted(f.live_blocks):
+        for s in f.blocks[bi]["s"]:
+            if s[0] != "A" or s[2][0] != "bin" or s[2][1] not in ("Eq", "Ne"):
+                continue
+            la = [o for o in f.trace_operand(s[2][2]) if o.kind == "call"]
+            lb = [o for o in f.trace_operand(s[2][3]) if o.kind == "call"]
+            refs = {id(o.ref) for o in la + lb}
+            if not ({id(a), id(b)} <= refs):
+                continue
+            for sb in sorted(f.live_blocks):
+                si = f.switch_info(sb)
+                if not si or "true" not in si["arms"] or si["op"][0] == "k":
+                    continue
+                if si["op"][1][0] != s[1][0]:
+                    continue
+                uneq = si["arms"]["true" if s[2][1] == "Ne" else "false"]
+                eq = si["arms"]["false" if s[2][1] == "Ne" else "true"]
+                region = f.reachable_from(uneq, stop=[eq])
+                vals = []
+                for rb in region:
+                    for st in f.blocks[rb]["s"]:
+                        if st[0] == "A" and st[1][0] == 0 and not st[1][1]:
+                            vals.append(st[2][1][1].get("v") if st[2][0] == "use" and st[2][1][0] == "k" else "?")
+                    c = f.call_at(rb)
+                    if c is not None and c.dest and c.dest[0] == 0:
+                        vals.append("?")
+                return True, bool(vals) and set(vals) == {"false"}
+    return False, False
+
+
+def r5(ctx):
+    prog = ctx.prog
+    from ..query import iter_chain
+    f = ctx.anchor("R5", r"^ast_grep_core::match_tree::does_node_match_exactly$")
+    if f:
+        fam = prog.family(f)
+        rec = [(g, c) for g in fam for c in g.calls if prog.call_targets(c) == [f.id]]
+        ctx.ob("R5", "does_node_match_exactly/recursive", bool(rec), "%d recursive call(s) compare the children" % len(rec), where=f.loc())
+        adaptors, leaves = [], []
+        for g, c in rec:
+            for a in c.args[:2]:
+                ad, lv = iter_chain(prog, g, a)
+                adaptors += ad
+                leaves += lv
+        kids = {}
+        other = []
+        for lf, o in leaves:
+            if o.kind == "call" and o.ref.name == "children" and o.ref.best.startswith("ast_grep_core::node::Node"):
+                for r in deep_roots(prog, lf, o.ref.args[0], TRANSPARENT):
+                    if lf is f and r.kind == "param":
+                        kids[r.ref] = o.ref
+            else:
+                other.append(describe_origin(lf, o))
+        ctx.ob("R5", "does_node_match_exactly/children of both nodes", set(kids) == {1, 2} and not other,
+               "the nodes handed to the recursive call are items of goal.children() and candidate.children()" if set(kids) == {1, 2} and not other else
+               "the recursion is not fed from children() of both parameters (children of params %s; other sources %s)" % (sorted(kids), other[:3]), where=f.loc())
+        drop = sorted({c.name for g, c in adaptors if c.name in DROPPING_ITER})
+        ctx.ob("R5", "does_node_match_exactly/no child is dropped", not drop,
+               "pipeline between children() and the recursive comparison: %s — no element-dropping adaptor" % sorted({c.name for g, c in adaptors}) if not drop else
+               "children are passed through %s before being compared: nodes that differ only in the dropped children (operators, keywords, punctuation) "
+               "are accepted as 'the same code' for a repeated meta-variable" % drop, where=f.loc())
+        def on_param(name, i):
+            return [c for c in f.calls if c.name == name and c.args and any(o.kind == "param" and o.ref == i for o in deep_roots(prog, f, c.args[0], TRANSPARENT))]
+        k1, k2 = on_param("kind_id", 1), on_param("kind_id", 2)
+        found, rej = _pair_compare(prog, f, k1[0], k2[0]) if k1 and k2 else (False, False)
+        ctx.ob("R5", "does_node_match_exactly/kinds compared", found and rej, "kind_id() of both nodes compared; a mismatch returns false" if found and rej else "no kind comparison that rejects on mismatch", where=f.loc())
+        if any(c.name == "zip" for g, c in adaptors) and set(kids) == {1, 2}:
+            lens = {}
+            for c in f.calls:
+                if c.name == "len" and c.args:
+                    for o in deep_roots(prog, f, c.args[0], TRANSPARENT):
+                        for i, kc in kids.items():
+                            if o.kind == "call" and o.ref is kc:
+                                lens[i] = c
+            found, rej = _pair_compare(prog, f, lens[1], lens[2]) if set(lens) == {1, 2} else (False, False)
+            ctx.ob("R5", "does_node_match_exactly/arity compared before zip", found and rej,
+                   "zip truncates to the shorter side: the child counts are compared first and a mismatch returns false" if found and rej else
+                   "children are zipped (truncating) without a rejecting length comparison: a node equals any node of which it is a prefix", where=f.loc())
+    mv = ctx.anchor("R5", r"^ast_grep_core::meta_var::MetaVarEnv::<'tree, D>::match_variable$")
+    if mv and f:
+        gets = [c for c in mv.calls if c.name == "get" and any(o.kind == "param" and o.ref == 1 and "single_matched" in field_path(o.proj) for o in deep_roots(prog, mv, c.args[0], TRANSPARENT))]
+        eqs = [c for c in mv.calls if prog.call_targets(c) == [f.id]]
+        ok = False
+        detail = "no lookup of the existing binding / no call of does_node_match_exactly"
+        if gets and eqs:
+            a0 = any(o.kind == "call" and o.ref is gets[0] for o in deep_roots(prog, mv, eqs[0].args[0], TRANSPARENT - {"get"}))
+            a1 = any(o.kind == "param" and o.ref == 3 for o in deep_roots(prog, mv, eqs[0].args[1], TRANSPARENT))
+            arms = option_arms(mv, gets[0])
+            consts = []
+            for sb in arms["some"]:
+                for rb in mv.reachable_from(sb, stop=arms["none"]):
+                    for st in mv.blocks[rb]["s"]:
+                        if st[0] == "A" and st[1][0] == 0 and not st[1][1]:
+                            consts.append(rb)
+            dest_ok = eqs[0].dest and eqs[0].dest[0] == 0
+            ok = a0 and a1 and bool(arms["some"]) and not consts and bool(dest_ok)
+            detail = ("an already bound variable is approved only by does_node_match_exactly(existing binding, candidate)" if ok else
+                      "existing binding as goal: %s; candidate parameter: %s; result returned unmodified: %s; other assignments of the result on the bound arm: %s" % (a0, a1, bool(dest_ok), consts))
+        ctx.ob("R5", "match_variable decided by does_node_match_exactly", ok, detail, where=mv.loc())
+    mm = ctx.anchor("R5", r"^ast_grep_core::meta_var::MetaVarEnv::<'tree, D>::match_multi_var$")
+    if mm and f:
+        eqs = [c for c in mm.calls if prog.call_targets(c) == [f.id]]
+        ok = False
+        if eqs:
+            ba = bool_arms(mm, eqs[0])
+            if ba:
+                region = mm.reachable_from(ba["false"], stop=[ba["true"]])
+                vals = []
+                for rb in region:
+                    for st in mm.blocks[rb]["s"]:
+                        if st[0] == "A" and st[2][0] == "use" and st[2][1][0] == "k" and st[2][1][1].get("ty") == "bool" and "bool" == mm.locals[st[1][0]]:
+                            vals.append(st[2][1][1].get("v"))
+                ok = "false" in vals and "true" not in vals
+        ctx.ob("R5", "match_multi_var rejects on an unequal pair", ok, "a pair for which does_node_match_exactly is false ends the comparison with false", where=mm.loc())
+
+
+AGG_TY = re.compile(r"^&mut impl Aggregator<")
+REBORROW = {"deref_mut", "as_mut", "by_ref", "borrow_mut"}
+
+
+def r6(ctx):
+    prog = ctx.prog
+    fns = [f for f in prog.find_fns(r"^ast_grep_core::match_tree::match_node::") if not f.is_closure and any(AGG_TY.match(f.locals[i]) for i in range(1, f.nargs + 1))]
+    ctx.floor("R6", "engine functions threading the aggregator", len(fns), 5)
+    for f in sorted(fns, key=lambda f: f.id):
+        ps = [i for i in range(1, f.nargs + 1) if AGG_TY.match(f.locals[i])]
+        fam = prog.family(f)
+        if len(fam) > 1:
+            for g in fam[1:]:
+                used = [c for c in g.calls for a in c.args if a[0] != "k" and any(ff is f and o.kind == "param" and o.ref in ps for ff, o in ultimate_roots(prog, g, a, REBORROW))]
+                ctx.ob("R6", "%s/closure %s" % (f.name, g.id.rsplit("::", 1)[-1]), not used, "closures do not touch the aggregator" if not used else "aggregator used inside a closure (not modelled)", where=g.loc())
+        def exposing(c):
+            return any(a[0] != "k" and any(o.kind == "param" and o.ref in ps for o in deep_roots(prog, f, a, REBORROW)) for a in c.args)
+        E = [c for c in f.calls if exposing(c)]
+        for c in E:
+            dty = f.locals[c.dest[0]] if c.dest else ""
+            fail = []
+            if dty.startswith("core::option::Option"):
+                fail = list(option_arms(f, c)["none"])
+            elif dty.endswith("MatchOneNode"):
+                for bi in sorted(f.live_blocks):
+                    si = f.switch_info(bi)
+                    if not si or not si.get("enum") or si["place"] is None or not si["enum"].endswith("MatchOneNode"):
+                        continue
+                    if any(o.kind == "call" and o.ref is c for o in f.trace_place(si["place"])):
+                        fail.append(si["arms"]["NoMatch"])
+            again = []
+            for fb in fail:
+                region = f.reachable_from(fb)
+                again += [c2 for c2 in E if c2.bb in region]
+            ordinal = [x for x in E if x.name == c.name].index(c)
+            ctx.ob("R6", "%s/after failed %s#%d" % (f.name, c.name, ordinal), not again,
+                   ("failure arm(s) bb%s never reach another use of the caller's aggregator" % fail) if fail and not again else
+                   ("result is returned/propagated unexamined" if not fail else
+                    "after %s failed on the caller's aggregator (which it may have written), control reaches %s with the same aggregator: bindings of the "
+                    "rejected candidate stay visible to the next attempt; attempt on a scratch copy and commit on success" % (c.name, sorted({"%s (L%d)" % (x.name, x.line) for x in again}))),
+                   where=f.loc(c.line))
+    # the Skip* outcomes (which legitimately continue with the same aggregator) are produced before any aggregator call
+    mi = ctx.anchor("R6", r"^ast_grep_core::match_tree::match_node::match_node_impl$")
+    if mi:
+        ps = [i for i in range(1, mi.nargs + 1) if AGG_TY.match(mi.locals[i])]
+        E = [c for c in mi.calls if any(a[0] != "k" and any(o.kind == "param" and o.ref in ps for o in deep_roots(prog, mi, a, REBORROW)) for a in c.args)]
+        bad = []
+        n = 0
+        for bi in sorted(mi.live_blocks):
+            for st in mi.blocks[bi]["s"]:
+                if st[0] == "A" and st[1][0] == 0 and not st[1][1]:
+                    n += 1
+                    if st[2][0] == "agg" and st[2][1].get("variant") in ("MatchedBoth", "NoMatch"):
+                        continue
+                    # a computed outcome: must come from a call that is not handed the aggregator, with no aggregator call before it
+                    srcs = mi.trace_operand(st[2][1]) if st[2][0] == "use" else []
+                    ok = bool(srcs) and all(o.kind == "call" and o.ref not in E for o in srcs)
+                    before = [c for c in E if bi in mi.reachable_from(c.bb)]
+                    if not ok or before:
+                        bad.append("bb%d" % bi)
+            c = mi.call_at(bi)
+            if c is not None and c.dest and c.dest[0] == 0 and not c.dest[1]:
+                n += 1
+                if c in E or [c2 for c2 in E if bi in mi.reachable_from(c2.bb)]:
+                    bad.append("bb%d" % bi)
+        ctx.ob("R6", "match_node_impl/Skip* outcomes precede aggregator writes", n >= 3 and not bad,
+               "%d return assignments: MatchedBoth/NoMatch constants, or the outcome of strictness.match_terminal passed through before any aggregator call" % n if not bad else
+               "a computed outcome is returned after/through an aggregator call (%s): callers that continue on Skip* would continue with a written aggregator" % bad, where=mi.loc())
